@@ -189,6 +189,33 @@ def scripted():
         await t3
         for _ in range(3):
             await asyncio.sleep(0)
+        # somebody waiting for a scope's metrics gives up (its task is cancelled): the scope is unaffected
+        from haiway.context.metrics import MetricsContext
+        hold = {}
+        e_in, e_go = asyncio.Event(), asyncio.Event()
+
+        async def waited_scope():
+            try:
+                async with ctx.scope("W", completion=cb("W")):
+                    hold["m"] = MetricsContext._context.get()
+                    e_in.set()
+                    await e_go.wait()
+                    order.append("W-body-end")
+            except BaseException as e:  # noqa
+                problems.append(f"leaving a scope somebody had stopped waiting for raised {e!r}")
+        tw = asyncio.ensure_future(waited_scope())
+        await e_in.wait()
+        waiter = asyncio.ensure_future(hold["m"].wait())
+        await asyncio.sleep(0)
+        waiter.cancel()
+        for _ in range(3):
+            await asyncio.sleep(0)
+        if "W" in order:
+            problems.append("cancelling a task that awaited ScopeMetrics.wait() completed the scope while its body was running")
+        e_go.set()
+        await tw
+        for _ in range(3):
+            await asyncio.sleep(0)
         # a nested block that fails while being entered has been left for good: the enclosing scope still completes
         class Bad:
             async def __aenter__(self):
@@ -209,7 +236,7 @@ def scripted():
         return problems
     if "R-inner-body-ran" in order:
         return ["the body of a scope whose disposable failed to enter ran"]
-    for tag in ("P", "C1", "C2", "Q", "late", "R"):
+    for tag in ("P", "C1", "C2", "Q", "late", "R", "W"):
         if order.count(tag) != 1:
             return [f"completion callback of {tag} ran {order.count(tag)} times (order {order})"]
     if not (order.index("C1-left") < order.index("P") and order.index("C2-left") < order.index("P")):
